@@ -13,7 +13,7 @@ class SimStoreReader(pb.readers.BaseReader):
     block by block, yielding to the simulated scheduler between blocks."""
     BLOCK = 16
 
-    def _read_array(self, offset, n, /, **kwargs):
+    def _read_array(self, offset, n, /):      # exactly the documented hook signature
         out = np.empty((n,) + self.sample_shape, self.dtype)
         s = CUR["sched"]
         for b0 in range(0, n, self.BLOCK):
